@@ -13,7 +13,7 @@ PROPERTY = 'C07'
 
 ASSUMPTIONS = [
     'query decoding of the HTTP stack = urllib.parse.parse_qsl(keep_blank_values=True) (the real function for token text, pysx.urlmodel for symbolic characters, validated against the real one)',
-    'integer option values -2**31 .. 2**31; free text (licence URLs) 1..2 (quick) / 1..3 (thorough) arbitrary ASCII characters 32..126; date-times: any calendar instant with microseconds and a UTC offset of whole minutes in [-14h, +14h]',
+    'integer option values -2**31 .. 2**31 (from the smallest value the option parser accepts: 0 or 1 for the event schedule options); free text (licence URLs) 1..2 (quick) / 1..3 (thorough) arbitrary ASCII characters 32..126; date-times: any calendar instant with microseconds and a UTC offset of whole minutes in [-14h, +14h]',
     'the stream has no stored defaults (stream.defaults is None)',
 ]
 OUTSIDE = ['that each manifest template actually uses adp.initURL / adp.mediaURL',
@@ -72,13 +72,25 @@ def _choices(opt):
     return out
 
 
+def _int_floor(opt):
+    """smallest legal value of an integer option, read off its own parser: the event schedule
+    options refuse negative numbers (and 0 for interval / timescale)"""
+    for probe, floor in (('-1', INT_MIN), ('0', 0)):
+        try:
+            opt.from_string(probe)
+            return floor
+        except ValueError:
+            continue
+    return 1
+
+
 def _sym_value(sx, opt, kind, tier, variant):
     """a symbolic (or path-forked) legal value of the option, in its *parsed* form"""
     from pysx import chars, dt
     if kind == 'bool':
         return bool(sx.bool('v'))
     if kind == 'int':
-        return sx.int('v', INT_MIN, INT_MAX)
+        return sx.int('v', _int_floor(opt), INT_MAX)
     if kind == 'floatchoice':
         ch = _choices(opt)
         i = sx.int('choice', 0, len(ch))
